@@ -152,7 +152,7 @@ func checkC04(c *Ctx) {
 		if inner != nil {
 			pos = inner.Pos()
 		}
-		c.Check(ok, "R4.6", fn.String(), "visits-all", pos, "%s reaches every branch of %s (loop over the whole collection, no early exit) %s", t.m, fn.Params[0].Name(), why)
+		c.Check(ok, "R4.6", fn.String(), "visits-all", pos, "%s reaches every branch of %s (loop over the whole collection, no early exit) %s", t.m, PN(fn.Params[0]), why)
 	}
 	// R4.7
 	{
@@ -230,7 +230,7 @@ func ioCoreWriteShape(c *Ctx, w *ssa.Function) (bool, []string) {
 			nfree++
 		}
 	}
-	rc := w.Params[0].Name()
+	rc := PN(w.Params[0])
 	ok := enc != nil && len(outs) == 1 && free != nil && nfree == 1
 	if ok {
 		bufD := Desc(enc) + "#0"
